@@ -84,6 +84,7 @@ package main
 //@   ensures err == nil ==> result != nil && fresh(result) && fileState[result.Name()] == 3 && tmpDone[result.Name()] == 0
 //@ extern (*os.File).Name
 //@   pure
+//@   stable
 //@ extern (*os.File).Close
 //@   pure
 //@   ghost-effect tmpDone[f.Name()] = (err == nil && tmpDone[f.Name()] == 5) ? 1 : 0
